@@ -790,20 +790,22 @@ static ustr pick(const std::vector<ustr> &p) { return p[(size_t) *g::range(0, (i
 static long kmode() { return *g::chance(50) ? 0 : 1 + *g::range(0, 15); }   // 0: the literal key/name of the op; k: aim at an existing entry
 static long elem_sel() { int w = *g::range(0, 10); return w < 2 ? 0 : w < 5 ? 1 : 2 + *g::range(0, 11); }
 
-// mode 0: any operation; 1: an operation that makes a root value; 2: packet_create
+// mode 0: any operation; 1: an operation that makes a root value; 2: packet_create; 3 / 4: an operation that makes a list / table root
 static rc::Gen<Op> op_gen(int mode) {
     return rc::gen::exec([mode]() {
         Op o;
-        o.code = mode == 2 ? (int) O_PCREATE : mode == 1 ? *rc::gen::weightedElement<int>({{3, O_CREATE}, {4, O_TREE}}) : *rc::gen::weightedElement<int>({{2, O_CREATE}, {2, O_TREE}, {4, O_INIT}, {3, O_INITCHAR}, {3, O_COPYCHAR}, {3, O_PARSENUMB}, {2, O_INITNUMB}, {2, O_AUTONUMB}, {4, O_SETQ},
+        o.code = mode == 2 ? (int) O_PCREATE : mode >= 1 ? *rc::gen::weightedElement<int>({{3, O_CREATE}, {4, O_TREE}}) : *rc::gen::weightedElement<int>({{2, O_CREATE}, {2, O_TREE}, {4, O_INIT}, {3, O_INITCHAR}, {3, O_COPYCHAR}, {3, O_PARSENUMB}, {2, O_INITNUMB}, {2, O_AUTONUMB}, {4, O_SETQ},
                                                  {2, O_CLEAN}, {5, O_CLONE}, {3, O_FREE}, {2, O_COUNT}, {6, O_LGET}, {5, O_LSET}, {5, O_LINS}, {4, O_LREM}, {4, O_LAPPEND},
                                                  {6, O_TSET}, {6, O_TGET}, {4, O_TREM}, {2, O_TKEYS}, {4, O_PCREATE}, {5, O_PSET}, {5, O_PGET}, {3, O_PREM}, {1, O_PNAMES}, {1, O_PFREE}});
         long sel = *g::range(0, 13);
-        long ksel = sel + (*g::chance(85) ? 100 : 0), ssel = sel + (*g::chance(70) ? 100 : 0);    // operations that need a particular kind: mostly aimed at a value of that kind
+        long ksel = sel + (*g::chance(85) ? 100 : 0), ssel = sel + (*g::chance(80) ? 100 : 0);    // operations that need a particular kind: mostly aimed at a value of that kind
         switch (o.code) {
-        case O_CREATE: o.a = {*rc::gen::weightedElement<long>({{2, 0}, {1, 1}, {5, 2}, {5, 3}, {1, 4}, {1, 5}})}; break;
+        case O_CREATE: o.a = {mode == 3 ? 2 : mode == 4 ? 3 : *rc::gen::weightedElement<long>({{2, 0}, {1, 1}, {5, 2}, {5, 3}, {1, 4}, {1, 5}})}; break;
         case O_TREE: {
             g::ValueOpts vo; vo.prof = g::P_CIF2; vo.keyprof = g::P_CIF2_LINE; vo.maxlen = 8; vo.maxdepth = 3; vo.maxmembers = 4;
             Value v = *rc::gen::scale(0.6, g::value(vo, 0));
+            if (mode == 3 && v.k != Value::LIST) v = Value::list({v, Value::chr(u"x", false), Value::table({{u"k", Value::na()}})});
+            if (mode == 4 && v.k != Value::TABLE) v = Value::table({{u"a", v}, {U({0xC5}), Value::list({Value::num(u"1.0(2)")})}});
             if (*g::chance(60) && v.k != Value::LIST && v.k != Value::TABLE) { Value w = *g::chance(50) ? Value::list({v, Value::na()}) : Value::table({{u"a", v}, {U({0x65, 0x301}), Value::list({Value::chr(u"in")})}}); v = w; }
             o.s = {u16(cm::ser(v))}; break; }
         case O_INIT: o.a = {ssel, *rc::gen::weightedElement<long>({{2, 0}, {1, 1}, {4, 2}, {4, 3}, {1, 4}, {1, 5}})}; break;
@@ -863,7 +865,7 @@ int main(int argc, char **argv) {
     e.run = []() {
         return rc::check("C19 value/list/table/packet histories agree with the model after every operation", []() {
             int maxops = tier() == "thorough" ? 80 : 60;
-            std::vector<Op> ops = *rc::gen::container<std::vector<Op>>(2, op_gen(1));                        // a few objects to start with
+            std::vector<Op> ops = {*op_gen(3), *op_gen(4)};                                                   // a few objects to start with
             if (*g::chance(60)) ops.push_back(*op_gen(2));
             { std::vector<Op> more = *rc::gen::resize(2, rc::gen::container<std::vector<Op>>(op_gen(1))); ops.insert(ops.end(), more.begin(), more.end()); }
             std::vector<Op> body = *rc::gen::scale(2.0, rc::gen::container<std::vector<Op>>(op_gen(0)));   // length 0..2*size, cut at maxops
